@@ -8,6 +8,7 @@ import DW.Lemmas.Tagged
 import DW.Lemmas.TaggedV1
 import DW.Lemmas.RoundTrip
 import DW.Lemmas.RoundTripV1
+import DW.Lemmas.GenDumpSem
 
 namespace DW.Props.C13
 open DW DW.Tagged
@@ -243,5 +244,41 @@ theorem C13_v1_roundtrip_tagged_example :
     cases ht
     simp only [List.mem_cons, List.not_mem_nil, or_false] at hf
     subst hf; decide
+
+/-! ### the tag entry, at the level of the generated code -/
+
+open DW.GenDump in
+/-- **C13 (the generated dump function writes the tag).**  For any class with a (non-empty) `Meta.tag`, any fields, Meta switches,
+call arguments and instance whose skip comparisons do not raise: running the body `dump_func_for_dataclass` writes for the class
+ends by writing the class's tag under the configured tag key (`Meta.tag_key`, or `__tag__` when none is set) — after all
+field entries, exactly once, whatever the fields are called and whatever they hold. -/
+theorem C13_generated_code_writes_tag (p : Char → Bool) (ρ : Env) (eff : MetaCfg) (args : DumpArgs)
+    (fks : List (FieldInfo × S)) (vals : S → PyVal) (W : World p eff args fks vals ρ) (dtv ocv : FieldInfo → Bool)
+    (Hd : ∀ q ∈ fks, defaultTest eff q.1 (vals q.1.name) = .ok (dtv q.1))
+    (Ho : ∀ q ∈ fks, ownCond eff q.1 (vals q.1.name) = .ok (ocv q.1))
+    (t : S) (ht : eff.tag = some t) (hne : t ≠ []) :
+    ∃ body, run ρ (genBody p (ginOf eff fks)) = .ok (body ++ [.tag (ginOf eff fks).effTagKey t]) ∧
+      ∀ e ∈ body, ∀ k t', e ≠ .tag k t' := by
+  refine ⟨emitsFrom (sk2At eff args fks dtv) ocv vals 0 fks, ?_, ?_⟩
+  · rw [run_genBody p ρ eff args fks vals W dtv ocv Hd Ho]
+    have : tagEmits (ginOf eff fks) = [.tag (ginOf eff fks).effTagKey t] := by
+      have hto : (ginOf eff fks).tagOn = some t := by
+        simp only [GIn.tagOn, ginOf, ht]
+        cases t with
+        | nil => exact absurd rfl hne
+        | cons c r => rfl
+      simp [tagEmits, hto]
+    rw [this]
+  · intro e he k t' hk
+    rw [emitsFrom_eq eff args fks dtv ocv vals fks 0 (by simp)] at he
+    simp only [List.mem_flatMap] at he
+    obtain ⟨q, _, hq⟩ := he
+    subst hk
+    unfold refFieldEmit at hq
+    split at hq
+    · split at hq <;> simp at hq
+    · split at hq
+      · simp at hq
+      · split at hq <;> simp at hq
 
 end DW.Props.C13
